@@ -7,6 +7,7 @@ import (
 	"sort"
 	"strconv"
 	"strings"
+	"time"
 
 	"github.com/elastos/Elastos.ELA/common"
 	"github.com/elastos/Elastos.ELA/common/config"
@@ -20,6 +21,7 @@ import (
 //	reset
 //	init <reward> <maturity> <minFee> <guardFrom> <checkRewardFrom> <genesis block>
 //	deliver <block>      → main|side|orphan|err <tipHeight> <tipId>
+//	deliverw <timestamp> <bits> <block>   (same, header time and difficulty given explicitly)
 //	submit <tx>          → ok | err
 //	irr <lih> <dpos> <revertStart>
 //	obs <q>*             u<txid> a<addr> t<txid> p c h
@@ -30,8 +32,12 @@ type Sim struct {
 	// connectBestChain is off at or below it); 0 keeps the RegNet value.
 	GuardFrom uint32
 	Name      string
-	dir       string
-	seq       int
+	// Retarget: PowLimitBits 0x2000ffff, TargetTimespan 10 s, TargetTimePerBlock 1 s (a difficulty
+	// retarget every 10 blocks, so blocks can carry different work); blocks then travel as
+	// `deliverw <timestamp> <bits> <block>`.
+	Retarget bool
+	dir      string
+	seq      int
 	// LastErr is the error text of the last deliver/submit (for oracles and debugging).
 	LastErr string
 }
@@ -66,6 +72,11 @@ func (s *Sim) reset() {
 	n, err := NewNode(s.dir, Options{CoinbaseMaturity: s.Maturity, Tweak: func(p *config.Configuration) {
 		if s.GuardFrom != 0 {
 			p.CRCOnlyDPOSHeight = s.GuardFrom
+		}
+		if s.Retarget {
+			p.PowConfiguration.PowLimitBits = 0x2000ffff
+			p.PowConfiguration.TargetTimespan = 10 * time.Second
+			p.PowConfiguration.TargetTimePerBlock = 1 * time.Second
 		}
 	}})
 	if err != nil {
@@ -194,11 +205,19 @@ func (s *Sim) Exec(t []string) string {
 			return "bad-init"
 		}
 		return "ok"
-	case "deliver":
-		bs, err := ParseBlock(t[1:])
+	case "deliver", "deliverw":
+		var ts, bits uint64
+		rest := t[1:]
+		if t[0] == "deliverw" {
+			ts, _ = strconv.ParseUint(t[1], 10, 32)
+			bits, _ = strconv.ParseUint(t[2], 16, 32)
+			rest = t[3:]
+		}
+		bs, err := ParseBlock(rest)
 		if err != nil {
 			panic("harness: bad block spec: " + err.Error())
 		}
+		bs.TS, bs.Bits = uint32(ts), uint32(bits)
 		blk, err := s.N.Build(bs, true)
 		if err != nil {
 			panic("harness: " + err.Error())
